@@ -261,12 +261,12 @@ def main():
     thorough = chk.tier == 'thorough'
     chk.encode(cl._lie_transform, cl._select_terms_for_elimination, cl._lie_expansion, cl._apply_coord_transform, nl._lie_transform, nl._select_nonresonant_terms,
                lie._solve_homological_equation, lie._apply_poly_transform)
-    chk.bound(N='elimination: N <= %d; composition/canonicity/inverse: N <= %d' % (6 if thorough else 5, 5 if thorough else 4),
+    chk.bound(N='elimination: N <= %d; composition/canonicity/inverse: N <= %d (thorough: N = 5 with a reduced support of 5 + 3 coefficients)' % (6 if thorough else 5, 5 if thorough else 4),
               H='H2 = lam q1p1 + nu1 q2p2 + nu2 q3p3 with formal frequencies, H3 and H4 with 7 symbolic coefficients each (two different supports)')
     chk.assume('non-resonance to the needed order: every divisor (k, eta) that is not identically zero is non-zero (generic side of the |denom| < 1e-14 test)',
                'nu_k stands for i*omega_k: the obligations are rational-function identities in (lam, nu1, nu2, coefficients), valid for all complex values with non-zero divisors',
                'zero-skip guards and cleaning thresholds on the generic side')
-    chk.out_of_scope('dense Hamiltonians at degrees above the bound (only a sparse symbolic generator is taken to degree 8, 10 thorough)', 'radius of convergence, behaviour near resonances')
+    chk.out_of_scope('dense Hamiltonians at degrees above the bound (only a sparse symbolic generator is taken to degree 8, 9 thorough)', 'radius of convergence, behaviour near resonances')
     run_case(chk, 'partial', 4, H3_SUPPORT, H4_SUPPORT, 'A', True)
     run_case(chk, 'partial', 5 if not thorough else 6, H3_SUPPORT, H4_SUPPORT, 'A', False)
     run_case(chk, 'full', 4, H3_SUPPORT, H4_SUPPORT, 'A', True)
@@ -275,10 +275,10 @@ def main():
     alt4 = r.sample(ALT4, 5) + r.sample(H4_SUPPORT, 2)
     run_case(chk, 'partial', 4, alt3, alt4, 'B(seed %d)' % chk.seed, False)
     run_case(chk, 'full', 5, H3_SUPPORT, H4_SUPPORT, 'A', False)
-    high_degree_series(chk, 8 if not thorough else 10, H3_SUPPORT[:3], H4_SUPPORT[:1], 'S')
+    high_degree_series(chk, 8 if not thorough else 9, H3_SUPPORT[:3], H4_SUPPORT[:1], 'S')
     if thorough:
-        run_case(chk, 'partial', 5, H3_SUPPORT, H4_SUPPORT, 'A', True)
-        run_case(chk, 'full', 5, alt3, alt4, 'B', True)
+        # (the first sizing -- dense composition at N = 5 for both transforms plus the sparse series at degree 10 -- did not finish in 2 h)
+        run_case(chk, 'partial', 5, H3_SUPPORT[:5], H4_SUPPORT[:3], 'A5', True)
     return chk.finish()
 
 
